@@ -14,6 +14,7 @@ LEVEL = 'model_checking'
 def prepare():
     import kawin.precipitation  # noqa: F401
     from mc import precip, precip_oracles  # noqa: F401
+    precip.real_thermo('alzr')
 
 
 def run_config(case):
@@ -156,5 +157,7 @@ def run(ctx):
     ctx.assumptions = ['analytic backends; a fault is the documented "no result" answer of the method: None for '
                        'getGrowthAndInterfacialComposition, the previous/None impingement factor, (None, None) for getDrivingForce, '
                        'the -1 sentinel for getInterfacialComposition']
+    from mc import precip_product as pp
+    cc = cc + pp.real_product(ctx.tier)
     ctx.product_run('config', 'checks.c03:run_config', cc, chunksize=1)
     ctx.product_run('faults', 'checks.c03:run_fault_group', fc, chunksize=1)
